@@ -35,6 +35,7 @@
 
 #include <assert.h>
 #include <ctype.h>
+#include <errno.h>
 #include <string.h>
 
 #define LOCSYMSIGHT 3 /* max. sight for nameless temporary symbols */
@@ -891,6 +892,7 @@ static Double ConstFloatVal(char const* pExpr, FloatType Typ, Boolean* pResult) 
         }
 
         else {
+            errno    = 0;
             Erg      = strtod(pExpr, &pEnd);
             *pResult = (*pEnd == '\0');
         }
@@ -1261,6 +1263,12 @@ void EvalStrExpression(tStrComp const* pExpr, TempResult* pErg) {
     }
 
     pErg->Contents.Float = ConstFloatVal(CopyComp.str.p_str, Float80, &OK);
+    if (OK && (errno == ERANGE) && !as_isalpha(CopyComp.str.p_str[strspn(CopyComp.str.p_str, "+-")])
+        && (as_fpclassify(pErg->Contents.Float) == AS_FP_INFINITE)) {
+        /* a number too large for any float format is not infinity */
+        WrStrErrorPos(ErrNum_OverRange, &CopyComp);
+        LEAVE;
+    }
     if (OK) {
         pErg->Typ    = TempFloat;
         pErg->Relocs = NULL;
